@@ -75,6 +75,13 @@ struct XalanListIteratorBase
 
     typedef XalanListIteratorBase<XalanListIteratorTraits<value_type>, Node> iterator;
 
+    // An iterator that points to nothing.  The begin and the end of a
+    // list that has never held anything, seen through a const reference.
+    XalanListIteratorBase() :
+        currentNode(0)
+    {
+    }
+
     XalanListIteratorBase(Node& node) : 
         currentNode(&node)
     {
@@ -252,7 +259,9 @@ public:
     const_iterator
     begin() const
     {
-        return const_iterator(*(getListHead().next));
+        // A const member function must not create the list head:  the
+        // list may be shared by several threads that only read it.
+        return m_listHead == 0 ? const_iterator() : const_iterator(*(m_listHead->next));
     }
 
     iterator
@@ -264,7 +273,17 @@ public:
     const_iterator
     end() const
     {
-        return const_iterator(getListHead());
+        return m_listHead == 0 ? const_iterator() : const_iterator(*m_listHead);
+    }
+
+    /**
+     * Whether the list has ever held anything, in which case begin() and
+     * end() do not allocate memory.
+     */
+    bool
+    hasListHead() const
+    {
+        return m_listHead != 0;
     }
 
     reverse_iterator
